@@ -106,6 +106,7 @@ type c19EmbedVal struct {
 	c19Rec
 	X string `@Int`
 }
+
 // grammar fields reached through three and four levels of by-value embedding, several fields per level
 type c19Deep4 struct {
 	A string `@Ident`
